@@ -215,6 +215,69 @@ Not applicable: that the position lies in the first malformed assignment (nom's 
                     Err(e) => ctx.fail_closed("C17.same", &format!("[ReportData::from]: {}", e)),
                 }
             }
+            // evaluated on a choice of failures (`alt`) and on a stacked context: whichever alternative the report is about, its
+            // line, column, offset and excerpt start belong to *one* failing Input — a line from one alternative with the offset
+            // of another is a position that does not exist in the source
+            {
+                use crate::eval::{Env, Evaluator, Val};
+                use std::collections::BTreeMap as Map;
+                let consts = const_resolver(m);
+                let fields = ["line", "column", "offset", "context_start_line", "context_start_offset"];
+                let of = |input: &str, field: &str| -> i128 {
+                    let base = match input { "input-A" => 100, "input-B" => 200, _ => 300 };
+                    base + fields.iter().position(|f| *f == field).unwrap_or(9) as i128
+                };
+                let hook = move |_: &Evaluator, name: &str, a: &[Val]| -> Option<Result<Val, String>> {
+                    if let Some(Val::Opaque(s)) = a.first() {
+                        if s.starts_with("input-") {
+                            if name == ".src_file" {
+                                return Some(Ok(Val::none()));
+                            }
+                            if let Some(fl) = fields.iter().find(|f| format!(".{}", f) == name) {
+                                return Some(Ok(Val::int(of(s, fl))));
+                            }
+                        }
+                    }
+                    None
+                };
+                let params: Vec<String> = f.sig.inputs.iter().filter_map(|a| match a { syn::FnArg::Typed(t) => Some(tok(&t.pat)), _ => None }).collect();
+                let mut inl: Map<String, (Vec<String>, syn::Block)> = Map::new();
+                inl.insert("from".into(), (params.clone(), f.block.clone()));
+                let ev = Evaluator { consts: &consts, call_hook: &hook, inline: Some(&inl) };
+                let base = |input: &str| {
+                    let mut b = Map::new();
+                    b.insert("input".to_string(), Val::Opaque(input.into()));
+                    b.insert("kind".to_string(), Val::Ctor("External".into(), vec![Val::Str(format!("reason of {}", input))], Map::new()));
+                    Val::Ctor("Base".into(), vec![], b)
+                };
+                let alt = |v: Vec<Val>| Val::Ctor("Alt".into(), vec![Val::List(v)], Map::new());
+                let stack = |b: Val| { let mut s = Map::new(); s.insert("base".to_string(), b); s.insert("contexts".to_string(), Val::List(vec![])); Val::Ctor("Stack".into(), vec![], s) };
+                let trees: Vec<(&str, Val)> = vec![
+                    ("alt(A,B)", alt(vec![base("input-A"), base("input-B")])),
+                    ("alt(B,A)", alt(vec![base("input-B"), base("input-A")])),
+                    ("alt(A,alt(B,C))", alt(vec![base("input-A"), alt(vec![base("input-B"), base("input-C")])])),
+                    ("stack(alt(A,B))", stack(alt(vec![base("input-A"), base("input-B")]))),
+                    ("alt(stack(A),B)", alt(vec![stack(base("input-A")), base("input-B")])),
+                ];
+                for (label, tree) in trees {
+                    ctx.oblige("C17.same", &format!("report-data:one-input:{}", label), true);
+                    let mut env = Env::new();
+                    env.insert(params.first().cloned().unwrap_or("value".into()), tree);
+                    match ev.eval_fn_body(&f.block, &mut env) {
+                        Ok(Val::Ctor(_, _, fl)) => {
+                            let got: Vec<Option<i128>> = fields.iter().map(|k| match fl.get(*k) { Some(Val::Int { v, .. }) => Some(*v), _ => None }).collect();
+                            let owner = ["input-A", "input-B", "input-C"].iter().find(|i| fields.iter().zip(got.iter()).all(|(k, g)| *g == Some(of(i, k))));
+                            if owner.is_none() {
+                                let from: Vec<String> = fields.iter().zip(got.iter()).map(|(k, g)| format!("{} of {}", k, ["input-A", "input-B", "input-C"].iter().find(|i| *g == Some(of(i, k))).map(|i| &i[6..]).unwrap_or("?"))).collect();
+                                ctx.violate("C17.same", "report-data:mixed-inputs", &f.file, f.line,
+                                    &format!("ReportData::from on the error tree {} builds a report whose position fields come from different failing inputs ({}): the line / column no longer describe the byte offset (\"the line number equals one plus the number of line breaks before that offset\")", label, from.join(", ")));
+                            }
+                        }
+                        Ok(o) => ctx.fail_closed("C17.same", &format!("[ReportData::from {}]: {}", label, o.show().chars().take(100).collect::<String>())),
+                        Err(e) => ctx.fail_closed("C17.same", &format!("[ReportData::from {}]: {}", label, e)),
+                    }
+                }
+            }
         }
     }
     // accessors return the fields
